@@ -321,7 +321,9 @@ Record connrec := {
   cr_srv : Z;
   cr_sobj : option Z;     (* session ID of the SessionCache object bound to the server end *)
   cr_cobj : option Z;     (* index of the client Session object bound to the client end *)
-  cr_open : bool
+  cr_open : bool;
+  cr_ks : bool;           (* ghost: the server end invalidated its session (fatal alert / abrupt close seen) *)
+  cr_kc : bool            (* ghost: the client end did *)
 }.
 
 (* log entry: everything the theorems and the correspondence look at *)
@@ -370,14 +372,31 @@ Fixpoint mk_tickets (n : nat) (key nonce : Z) (p : payload) (life now : Z) : lis
             :: mk_tickets n' key (nonce + 1) p life now
   end.
 
-(* One connection attempt: both ends run to completion or to the first alert. *)
-Definition conn_step (fixed : bool) (w : world) (cp : cparams) : world :=
+(* One connection attempt: both ends run to completion or to the first alert.
+   conn_delta computes what the attempt changes, apply_delta installs it. *)
+Record delta := {
+  d_store : option (list centry);     (* new content of the server's SessionCache *)
+  d_used : option cobj;               (* the offered client object after pruning *)
+  d_newc : option cobj;               (* a new client Session object *)
+  d_conn : connrec;
+  d_log : cres;
+  d_issue : option (Z * payload);     (* ghost: ticket key and payload issued *)
+  d_bump : Z                          (* handles consumed *)
+}.
+
+Definition apply_delta (w : world) (cp : cparams) (d : delta) : world :=
+  let svs := match d_store d, zget (w_servers w) (cp_srv cp) with
+             | Some st, Some sv => zset (w_servers w) (cp_srv cp) (set_store sv st)
+             | _, _ => w_servers w end in
+  let cls1 := put_client (w_clients w) (cp_offer cp) (d_used d) in
+  let cls := match d_newc d with Some c => cls1 ++ [c] | None => cls1 end in
+  mk_world (w_now w) (w_fresh w + d_bump d) svs cls (w_conns w ++ [d_conn d]) (w_log w ++ [d_log d])
+           (match d_issue d with Some (k, p) => w_issued w ++ [(cp_srv cp, k, p)] | None => w_issued w end).
+
+Definition conn_delta (fixed : bool) (w : world) (cp : cparams) (sv : server) : delta :=
   let now := w_now w in
   let ci := Z.of_nat (length (w_log w)) in           (* index of this connection *)
   let fresh := w_fresh w in                          (* fresh, fresh+1, ... are unused handles *)
-  match zget (w_servers w) (cp_srv cp) with
-  | None => w
-  | Some sv =>
   let cfg := sv_cfg sv in
   let c0 := match cp_offer cp with Some i => zget (w_clients w) i | None => None end in
   let offer_valid := match c0 with Some c => c_valid c | None => false end in
@@ -385,24 +404,23 @@ Definition conn_step (fixed : bool) (w : world) (cp : cparams) : world :=
       {| r_srv := cp_srv cp; r_ver := v; r_now := now; r_cfg := cfg; r_hello := h; r_acc := o_acc cp;
          r_src := src; r_out := out; r_sview := sview; r_cview := cview; r_offer := cp_offer cp;
          r_offer_valid := offer_valid; r_newc := ntk used |} in
-  let closed_conn := {| cr_srv := cp_srv cp; cr_sobj := None; cr_cobj := None; cr_open := false |} in
+  let closed_conn := {| cr_srv := cp_srv cp; cr_sobj := None; cr_cobj := None; cr_open := false;
+                        cr_ks := false; cr_kc := false |} in
+  let cidx := Z.of_nat (length (w_clients w)) in     (* index a new client object will get *)
   match client_offer fixed cp c0 now fresh with
   | OfferErr c' =>
-      mk_world now (fresh + 4) (w_servers w) (put_client (w_clients w) (cp_offer cp) c')
-               (w_conns w ++ [closed_conn])
-               (w_log w ++ [log0 0 None None OClientErr None None None]) (w_issued w)
+      {| d_store := None; d_used := c'; d_newc := None; d_conn := closed_conn;
+         d_log := log0 0 None None OClientErr None None None; d_issue := None; d_bump := 4 |}
   | Offer h used =>
-    let cls1 := put_client (w_clients w) (cp_offer cp) used in
     let v := Z.min (cp_maxv cp) (sv_maxv cfg) in
     let abort st' out :=
-      mk_world now (fresh + 4) (upd_server w (cp_srv cp) (set_store sv st')) cls1
-               (w_conns w ++ [closed_conn])
-               (w_log w ++ [log0 v (Some h) None out None None None]) (w_issued w) in
+      {| d_store := st'; d_used := used; d_newc := None; d_conn := closed_conn;
+         d_log := log0 v (Some h) None out None None None; d_issue := None; d_bump := 4 |} in
     if 4 <=? v then
       (* ---------------- TLS 1.3 ---------------- *)
-      if o_fsuite cp =? 0 then abort (sv_store sv) (OAbortS (o_falert cp)) else
+      if o_fsuite cp =? 0 then abort None (OAbortS (o_falert cp)) else
       match server_psk cfg cp h with
-      | S13Abort a => abort (sv_store sv) (OAbortS a)
+      | S13Abort a => abort None (OAbortS a)
       | d =>
         let resumed := match d with S13Psk _ _ => true | _ => false end in
         let ccert := match d with S13Psk _ p => p_ccert p
@@ -423,45 +441,45 @@ Definition conn_step (fixed : bool) (w : world) (cp : cparams) : world :=
                         s_ems := true; s_etm := false; s_sni := h_sni h; s_srp := 0;
                         s_ccert := cp_ccert cp; s_origin := origin |} in
         let newc := {| c_sess := cview; c_res := true; c_t10 := []; c_t13 := tks; c_rms := rms |} in
-        let cidx := Z.of_nat (length cls1) in
-        mk_world now (fresh + 2 + Z.max 0 (sv_count cfg) + 1) (w_servers w) (cls1 ++ [newc])
-                 (w_conns w ++ [{| cr_srv := cp_srv cp; cr_sobj := None; cr_cobj := Some cidx; cr_open := true |}])
-                 (w_log w ++ [log0 v (Some h)
-                                   (match d with S13Psk k _ => Some (ByPsk k) | _ => None end)
-                                   (ODone resumed resumed) (Some view) (Some cview) (Some newc)])
-                 (if issue then w_issued w ++ [(cp_srv cp, key, pl)] else w_issued w)
+        {| d_store := None; d_used := used; d_newc := Some newc;
+           d_conn := {| cr_srv := cp_srv cp; cr_sobj := None; cr_cobj := Some cidx; cr_open := true;
+                        cr_ks := false; cr_kc := false |};
+           d_log := log0 v (Some h) (match d with S13Psk k _ => Some (ByPsk k) | _ => None end)
+                         (ODone resumed resumed) (Some view) (Some cview) (Some newc);
+           d_issue := if issue then Some (key, pl) else None;
+           d_bump := 2 + Z.max 0 (sv_count cfg) + 1 |}
       end
     else
       (* ---------------- TLS <= 1.2 ---------------- *)
       let '(st1, d) := server_try_resume cfg (sv_store sv) (o_acc cp) h now in
       match d with
-      | SAbort a => abort st1 (OAbortS a)
+      | SAbort a => abort (Some st1) (OAbortS a)
       | SResume s o =>
           (* ServerHello: session_id = s_sid s, suite = s_suite s *)
           if client_resume_branch fixed used h (s_sid s) then
             match used with
             | Some c =>
-                if negb (s_suite s =? s_suite (c_sess c)) then abort st1 (OAbortC illegal_parameter)
-                else if negb (s_ms s =? s_ms (c_sess c)) then abort st1 (OAbortC bad_record_mac)
+                if negb (s_suite s =? s_suite (c_sess c)) then abort (Some st1) (OAbortC illegal_parameter)
+                else if negb (s_ms s =? s_ms (c_sess c)) then abort (Some st1) (OAbortC bad_record_mac)
                 else
-                  mk_world now (fresh + 4) (upd_server w (cp_srv cp) (set_store sv st1)) cls1
-                    (w_conns w ++ [{| cr_srv := cp_srv cp;
-                                      cr_sobj := match o with ByCache => Some (s_sid s) | _ => None end;
-                                      cr_cobj := cp_offer cp; cr_open := true |}])
-                    (w_log w ++ [log0 v (Some h) (Some o) (ODone true true) (Some s) (Some (c_sess c)) used])
-                    (w_issued w)
-            | None => abort st1 (OAbortC unexpected_message)
+                  {| d_store := Some st1; d_used := used; d_newc := None;
+                     d_conn := {| cr_srv := cp_srv cp;
+                                  cr_sobj := match o with ByCache => Some (s_sid s) | _ => None end;
+                                  cr_cobj := cp_offer cp; cr_open := true; cr_ks := false; cr_kc := false |};
+                     d_log := log0 v (Some h) (Some o) (ODone true true) (Some s) (Some (c_sess c)) used;
+                     d_issue := None; d_bump := 4 |}
+            | None => abort (Some st1) (OAbortC unexpected_message)
             end
-          else abort st1 (OAbortC unexpected_message)
+          else abort (Some st1) (OAbortC unexpected_message)
       | SFull =>
-          if o_fsuite cp =? 0 then abort st1 (OAbortS (o_falert cp)) else
+          if o_fsuite cp =? 0 then abort (Some st1) (OAbortS (o_falert cp)) else
           let sid := if sv_usecache cfg then fresh + 1 else 0 in
           if client_resume_branch fixed used h sid then
             (* the client takes the ServerHello for a resumption *)
             match used with
-            | Some c => if negb (o_fsuite cp =? s_suite (c_sess c)) then abort st1 (OAbortC illegal_parameter)
-                        else abort st1 (OAbortC unexpected_message)
-            | None => abort st1 (OAbortC unexpected_message)
+            | Some c => if negb (o_fsuite cp =? s_suite (c_sess c)) then abort (Some st1) (OAbortC illegal_parameter)
+                        else abort (Some st1) (OAbortC unexpected_message)
+            | None => abort (Some st1) (OAbortC unexpected_message)
             end
           else
             let ems := sv_ems cfg && h_ems h in
@@ -482,16 +500,20 @@ Definition conn_step (fixed : bool) (w : world) (cp : cparams) : world :=
                             s_ems := ems; s_etm := etm; s_sni := cp_sni cp; s_srp := cp_srp cp;
                             s_ccert := cp_ccert cp; s_origin := ci |} in
             let newc := {| c_sess := cview; c_res := true; c_t10 := tks; c_t13 := []; c_rms := 0 |} in
-            let cidx := Z.of_nat (length cls1) in
             let st2 := if sv_usecache cfg then cache_put cfg now view st1 else st1 in
-            mk_world now (fresh + 4) (upd_server w (cp_srv cp) (set_store sv st2)) (cls1 ++ [newc])
-              (w_conns w ++ [{| cr_srv := cp_srv cp;
-                                cr_sobj := if sv_usecache cfg then Some sid else None;
-                                cr_cobj := Some cidx; cr_open := true |}])
-              (w_log w ++ [log0 v (Some h) None (ODone false false) (Some view) (Some cview) (Some newc)])
-              (if issue then w_issued w ++ [(cp_srv cp, key, pl)] else w_issued w)
+            {| d_store := Some st2; d_used := used; d_newc := Some newc;
+               d_conn := {| cr_srv := cp_srv cp;
+                            cr_sobj := if sv_usecache cfg then Some sid else None;
+                            cr_cobj := Some cidx; cr_open := true; cr_ks := false; cr_kc := false |};
+               d_log := log0 v (Some h) None (ODone false false) (Some view) (Some cview) (Some newc);
+               d_issue := if issue then Some (key, pl) else None; d_bump := 4 |}
       end
-  end
+  end.
+
+Definition conn_step (fixed : bool) (w : world) (cp : cparams) : world :=
+  match zget (w_servers w) (cp_srv cp) with
+  | None => w
+  | Some sv => apply_delta w cp (conn_delta fixed w cp sv)
   end.
 
 (* ---- the other events ----------------------------------------------------------- *)
@@ -543,7 +565,7 @@ Definition close_step (w : world) (c kind : Z) : world :=
                  | _, _ => w_clients w end in
       mk_world (w_now w) (w_fresh w) svs cls
                (zset (w_conns w) c {| cr_srv := cr_srv cr; cr_sobj := cr_sobj cr; cr_cobj := cr_cobj cr;
-                                      cr_open := false |})
+                                      cr_open := false; cr_ks := inval_s; cr_kc := inval_c |})
                (w_log w) (w_issued w)
   end.
 
@@ -594,8 +616,43 @@ Definition srun (fixed : bool) (cfgs : list scfg) (h : list event) : world sblob
   run sblob Sealed sopen Tampered Junk fixed h (init_world sblob cfgs).
 
 (* ---- what the correspondence compares, per connection --------------------------- *)
-Arguments r_out {blob}. Arguments r_ver {blob}. Arguments r_sview {blob}. Arguments r_cview {blob}.
-Arguments r_newc {blob}. Arguments w_log {blob}.
+Arguments tk_blob {blob}.
+Arguments tk_life {blob}.
+Arguments tk_recv {blob}.
+Arguments c_sess {blob}.
+Arguments c_res {blob}.
+Arguments c_t10 {blob}.
+Arguments c_t13 {blob}.
+Arguments c_rms {blob}.
+Arguments h_maxv {blob}.
+Arguments h_sid {blob}.
+Arguments h_suites {blob}.
+Arguments h_ems {blob}.
+Arguments h_etm {blob}.
+Arguments h_sni {blob}.
+Arguments h_srp {blob}.
+Arguments h_ticket {blob}.
+Arguments h_psk {blob}.
+Arguments r_srv {blob}.
+Arguments r_ver {blob}.
+Arguments r_now {blob}.
+Arguments r_cfg {blob}.
+Arguments r_hello {blob}.
+Arguments r_acc {blob}.
+Arguments r_src {blob}.
+Arguments r_out {blob}.
+Arguments r_sview {blob}.
+Arguments r_cview {blob}.
+Arguments r_offer {blob}.
+Arguments r_offer_valid {blob}.
+Arguments r_newc {blob}.
+Arguments w_now {blob}.
+Arguments w_fresh {blob}.
+Arguments w_servers {blob}.
+Arguments w_clients {blob}.
+Arguments w_conns {blob}.
+Arguments w_log {blob}.
+Arguments w_issued {blob}.
 Definition b2z (b : bool) : Z := if b then 1 else 0.
 
 Definition view_obs (s : option sess) : list Z :=
